@@ -250,6 +250,12 @@ func (r *Rng) Text(n int, uc bool) string {
 	return string(rs)
 }
 
+// BoundaryLen returns a length at or next to a power-of-two / typical buffer boundary.
+func (r *Rng) BoundaryLen() int {
+	base := Pick(r, []int{16, 32, 64, 128, 256, 512, 1024, 4096})
+	return base - 1 + r.Intn(3)
+}
+
 // Ident returns a short lowercase identifier.
 func (r *Rng) Ident(n int) string {
 	b := make([]byte, n)
